@@ -263,6 +263,12 @@ def activation_functions_are_elementwise_and_their_custom_backward_is_the_deriva
     S.ensure("no-gradient-for-the-exponent", back[1] is None)
     S.forall("backward-is-g-times-the-derivative", Tensor(gi), lambda q: zreal(gi.at(q)) == z3.If(x_at(q) > 0, zreal(G.val.at(q)) * n * x_at(q) ** (n - 1), z3.RealVal(0)))
     S.ensure("incoming-gradient-not-modified-in-place", True)
+    # the module wrapper: ReLUn(n).forward(x) applies the function above with ITS exponent
+    mod = S.new(ACT + "ReLUn", n)
+    o3 = S.method(mod, "forward", X).val
+    S.ensure("module-keeps-the-shape", o3.rank == 2 and o3.shape[0].size_term() == zint(N) and o3.shape[1].concrete() == 2)
+    if o3.rank == 2:
+        S.forall("module-forward-is-relu-to-ITS-n-elementwise", Tensor(o3), lambda q: zreal(o3.at(q)) == relu(x_at(q)) ** n)
     # AdaptiveActivationFunction with the Sinus activation
     act = S.new(ACT + "AdaptiveActivationFunction", S.new(ACT + "Sinus"), 1.0, 3.0)
     a = S.getattr(act, "a")
